@@ -22,6 +22,24 @@ CLAIMS = {
              "with the implementation on every run (all 16 axes pairs x vectors flag x one/two grids, API helpers, "
              "every n in [1,4096] x both conventions x float32/64).",
         ref="5 C01"),
+    "C02": dict(
+        technique="Lean 4 theorems relating the model of Grid index<->world maps and header conversion to an independent ITK "
+                  "specification + three-way correspondence implementation / model / SimpleITK",
+        text="8 theorems: index->world equals ITK's O + D(S.i) with origin = sample 0 and direction columns = unit steps; "
+             "world->index equals ITK's inverse for orthonormal directions (and the true matrix inverse for d=2,3); the "
+             "SimpleITK header round trip reproduces size/origin/spacing/direction; center and origin construction routes are "
+             "consistent; a determinant-1 shear shows the diag(1/S)D^T shortcut is only valid for orthonormal directions "
+             "(outside the quantifier). Validated against SimpleITK on every run.",
+        ref="5 C02"),
+    "C03": dict(
+        technique="Lean 4 invariants (SameFrame for the resizing family, Shifted for the index family) proved per operation "
+                  "and closed under chains by induction + correspondence on every derivation method and chains",
+        text="15 theorems: resize keeps corner samples (align_corners) or extent, center and direction; downsample then upsample "
+             "is the identity for any dims/levels when no axis is clamped; pyramid sizes closed form, all levels share the cube "
+             "domain; resample extent; crop/pad/narrow/ROI/center crop/pad keep spacing and direction and every retained sample "
+             "keeps its world position; pooling centroids; chains of arbitrary length; the internal consistency assertions hold "
+             "exactly in the model (so a raise is rounding-only; F-03 was repaired by a fix: commit).",
+        ref="5 C03"),
     "C04": dict(
         technique="Lean 4 theorems (sampling reproduces world-linear images for any grid pair; data and grid halves of every "
                   "index-only operation use the same offset and size) + exact index correspondence + ramp oracle",
